@@ -358,7 +358,9 @@ func c08Ladder(c *mc.Ctx) {
 	}
 	kd := 1 + c.Choose(kmax)
 	criss := c.Bool()
-	withCommon := c.Bool()
+	// 0: nothing in common; 1: the root is a have; 2: the top of the ladder is a have and the
+	// wanted tip is one commit above it (the walk over the have's ancestry covers the ladder)
+	common := c.Choose(3)
 	depth := c.Choose(2)
 	c.Shard()
 	g := &model.Graph{}
@@ -383,14 +385,23 @@ func c08Ladder(c *mc.Ctx) {
 		g.Parents = append(g.Parents, []int{l, r})
 		top = a
 	}
+	ladderTop := top
+	if common == 2 {
+		g.Parents = append(g.Parents, []int{top})
+		top = len(g.Parents) - 1
+	}
 	n := g.N()
 	times := make([]int, n)
 	for i := range times {
 		times[i] = i
 	}
 	k := &c08case{g: g, times: times, tips: 1 << uint(top), wants: 1 << uint(top), depth: depth, missing: -1, done1: true}
-	if withCommon {
+	switch common {
+	case 1:
 		k.haves = []int{0}
+		k.split = 1
+	case 2:
+		k.haves = []int{ladderTop}
 		k.split = 1
 	}
 	e := 0
